@@ -20,6 +20,8 @@ MD = {
     "append_fail": "---\nappend: [p1.md]\n---\n\n# d\n\n```scrut\n$ echo a\nb\n```\n",
     "skip": "# d\n\n```scrut\n$ exit 80\n```\n",
     "timeout": "# d\n\n```scrut {timeout: 1s}\n$ sleep 5\n```\n",
+    # the shell of the second of three test cases is killed by a signal: there is no exit code to write an update from
+    "killed": "# d\n\n```scrut\n$ echo one\none\n```\n\nprose between\n\n```scrut {timeout: 5s}\n# a comment\n$ kill -9 $$\n```\n\n```scrut\n$ echo three\nthree\n```\n\nprose after\n",
     # the passing document depends on the Markdown glob dialect (`\\*` is not an escaped star there) and on the per-test
     # environment of the Markdown executor (SCRUT_TEST set, no Cram variables)
     "allpass": "# d\n\n```scrut\n$ echo 'C:\\temp'; echo \"${SCRUT_TEST:+set}${CRAMTMP:-nocram}\"\nC:\\* (glob)\nsetnocram\n```\n",
@@ -109,7 +111,7 @@ def run_scenario(sc):
                         pass
         out = p.stdout.decode("utf-8", "replace")
         m = SUMMARY.search(out)
-        fs, written_pass, detail = [], True, ""
+        fs, written_pass, detail, blocks_kept = [], True, "", True
         for x in files:
             def content(path):
                 return open(path, errors="replace").read() if os.path.exists(path) else None
@@ -122,6 +124,12 @@ def run_scenario(sc):
                 if st[role] == "changed" and role != "conv" and x["want"] is not None and not confined(x["text"], x["want"], open(path, errors="replace").read()):
                     written_pass = False
                     detail = f"the written {role} file differs from the document outside its failing expectation: " + repr(open(path, errors="replace").read()[:200])
+                if st[role] == "changed" and role != "conv" and x["orig"].endswith(".md"):
+                    nb = lambda t: sum(1 for ln in t.split("\n") if ln.startswith("```scrut"))
+                    got = open(path, errors="replace").read()
+                    if nb(got) != nb(x["text"]):
+                        blocks_kept = False
+                        detail = f"the written {role} file has {nb(got)} of the document's {nb(x['text'])} test blocks: " + repr(got[:200])
                 if st[role] == "changed":
                     # a `.new` file has no recognised extension: test a copy under the document's extension
                     tpath = path
@@ -139,11 +147,11 @@ def run_scenario(sc):
         counts = {"updated": int(m.group(2)), "skipped": int(m.group(3)), "unchanged": int(m.group(4))} if m else {"updated": 0, "skipped": 0, "unchanged": 0}
         if m and int(m.group(1)) != sum(counts.values()):
             written_pass, detail = False, "summary total differs from the sum of its parts"
-        return {"ev": "Load", "id": sc["id"], "docs": sc["docs"], "flags": fl, "written_pass": written_pass,
+        return {"ev": "Load", "id": sc["id"], "docs": sc["docs"], "flags": fl, "written_pass": written_pass, "blocks_kept": blocks_kept,
                 "obs": {"fs": fs, "counts": counts, "status": status}, "has_summary": bool(m), "exit": p.returncode,
                 "detail": detail, "stdout": out[-400:], "stderr": p.stderr.decode("utf-8", "replace")[-400:], "events": events}
     except subprocess.TimeoutExpired:
-        return {"ev": "Load", "id": sc["id"], "docs": sc["docs"], "flags": sc["flags"], "written_pass": False,
+        return {"ev": "Load", "id": sc["id"], "docs": sc["docs"], "flags": sc["flags"], "written_pass": False, "blocks_kept": True,
                 "obs": {"fs": [{"orig": "original", "new": "absent", "conv": "absent"} for _ in sc["docs"]], "counts": {"updated": 0, "skipped": 0, "unchanged": 0}, "status": "error"},
                 "has_summary": False, "exit": -1, "detail": "scrut update hung", "stdout": "", "stderr": "", "events": []}
     finally:
@@ -176,7 +184,7 @@ def stage(prop, tier, work, V, cov, s, replay_body=None):
     with concurrent.futures.ThreadPoolExecutor(max_workers=min(NCPU, 12)) as ex:
         records = list(ex.map(run_scenario, scenarios))
     results, printed = tlc_validate_sharded("UpdateCommandTrace", "UpdateCommandTrace.cfg", records, work, shards=min(NCPU, 4),
-                                            slim=lambda r: {k: r[k] for k in ("ev", "id", "docs", "flags", "obs", "written_pass", "has_summary")},
+                                            slim=lambda r: {k: r[k] for k in ("ev", "id", "docs", "flags", "obs", "written_pass", "blocks_kept", "has_summary")},
                                             tags=("VERDICT", "DRIFT"))
     for r in results:
         tlc_must_pass(r, "UpdateCommandTrace VAL")
